@@ -2019,6 +2019,237 @@ def site_surrogate_combine(mods):
     return out, ln, "fn SmallString::parse_in, the code point of a surrogate pair"
 
 
+
+# ----------------------------------------------------------------------------- the number automaton
+def _impl_parse_in(mod, ty):
+    c = [f for (t, name), fs in mod.impl_fns.items() if name == "parse_in" and t == ty for f in fs]
+    if len(c) != 1:
+        raise SiteError(f"expected one `fn parse_in` in `impl Parse for {ty}` of {mod.rel}, found {len(c)}")
+    return c[0]
+
+
+def _state_of(p, what):
+    """`State::X` as a pattern or as an expression -> X"""
+    if p[0] in ("ppath", "path") and len(p[2]) == 2 and p[2][0] == "State" and (p[0] == "path" or p[3] is None):
+        return p[2][1]
+    raise SiteError(f"{what}: expected a `State::<variant>`", p[1])
+
+
+def _is_err_return(e):
+    return (e[0] == "return" and e[2] is not None and e[2][0] == "call" and e[2][2][0] == "path" and e[2][2][2] == ["Err"])
+
+
+def _only(b):
+    """the single expression a block consists of (or the expression itself)"""
+    while b[0] == "block":
+        stmts, tail = b[2], b[3]
+        if tail is not None and not stmts:
+            b = tail
+        elif tail is None and len(stmts) == 1 and stmts[0][0] == "expr":
+            b = stmts[0][2]
+        else:
+            raise SiteError("a block of more than one statement in the number automaton is not translated", b[1])
+    return b
+
+
+def _num_action(body):
+    """what an arm of the automaton does: ("go", X) | ("error",) | ("follows",) | ("break",)"""
+    e = _only(body)
+    if e[0] == "assign" and e[2] == "=" and e[3][0] == "path" and e[3][2] == ["state"]:
+        return ("go", _state_of(e[4], "the new state"))
+    if _is_err_return(e):
+        return ("error",)
+    if e[0] == "break":
+        return ("break",)
+    if e[0] == "if" and e[4] is not None:
+        c = e[2]
+        if (c[0] == "mcall" and c[3] == "follows" and c[2][0] == "path" and c[2][2] == ["context"]
+                and len(c[4]) == 1 and c[4][0][0] == "path" and c[4][0][2] == ["c"]):
+            a, b = _num_action(e[3]), _num_action(e[4])
+            if a == ("break",) and b == ("error",):
+                return ("follows",)
+    raise SiteError("an arm of the number automaton does something this translator does not classify (it knows: "
+                    "`state = State::X`, `return Err(..)`, `break`, `if context.follows(c) { break } else { return Err(..) }`)", e[1])
+
+
+def site_number_automaton(mods):
+    """`match state { State::S => match c { pattern => action, .. }, .. }` of NumberBuf::parse_in, evaluated for every
+    context, state and character of char_domain (the outcome `follows` is resolved with Context::follows of the source);
+    with the initial state and the accepting states of the final `matches!`"""
+    mod = mods("src/parse/number.rs")
+    pmod = mods("src/parse/mod.rs")
+    fn = _impl_parse_in(mod, "NumberBuf")
+    follows = pmod.find_fn("follows", "Context")
+    if "Context" not in pmod.enums:
+        raise SiteError("no `enum Context` found in src/parse/mod.rs")
+
+    def is_state_match(ts, i):
+        return (is_kw(ts[i], "match") and i + 2 < len(ts) and ts[i + 1].kind == "ident" and ts[i + 1].text == "state"
+                and is_group(ts[i + 2], "Brace"))
+    found = find_tokens(fn.body_group.sub, is_state_match, [])
+    if len(found) != 1:
+        raise SiteError(f"expected one `match state {{ .. }}` in `NumberBuf::parse_in`, found {len(found)}", fn.line)
+    ts, i = found[0]
+    ln = ts[i].line
+    arms = parse_arms(ts[i + 2])
+    states = []
+    rows = {}
+    it = Interp(mod)
+    for pat, guard, body in arms:
+        if guard is not None:
+            raise SiteError("a guard on a state arm of the number automaton is not translated", pat[1])
+        st = _state_of(pat, "a state arm")
+        if st in rows:
+            raise SiteError(f"state `{st}` has two arms", pat[1])
+        inner = _only(body)
+        if inner[0] != "match" or inner[2][0] != "path" or inner[2][2] != ["c"]:
+            raise SiteError(f"the arm of state `{st}` is not a `match c {{ .. }}`", inner[1])
+        acts = [(p, g, _num_action(b)) for p, g, b in inner[3]]
+        row = []
+        for c in CHAR_DOMAIN:
+            hit = None
+            for p, g, a in acts:
+                b = {}
+                if it.pm(p, ("char", c), b, [{}], None):
+                    if g is not None:
+                        gv = it.ev(g, [dict(b, c=("char", c))], None)
+                        if gv[0] != "bool":
+                            raise SiteError("a guard of the number automaton is not a boolean", g[1])
+                        if not gv[1]:
+                            continue
+                    hit = a
+                    break
+            if hit is None:
+                raise SiteError(f"state `{st}`: no arm matches {c:#x} (rustc would reject a non-exhaustive match)", inner[1])
+            row.append(hit)
+        states.append(st)
+        rows[st] = row
+
+    def is_let_state(ts, i):
+        return (is_kw(ts[i], "let") and i + 3 < len(ts) and is_kw(ts[i + 1], "mut") and ts[i + 2].kind == "ident"
+                and ts[i + 2].text == "state" and ts[i + 3].is_p("="))
+    lets = find_tokens(fn.body_group.sub, is_let_state, [])
+    if len(lets) != 1:
+        raise SiteError(f"expected one `let mut state = ..;` in `NumberBuf::parse_in`, found {len(lets)}", fn.line)
+    lt, li = lets[0]
+    j = li + 4
+    while not lt[j].is_p(";"):
+        j += 1
+    initial = _state_of(Parser(lt[li + 4:j], lt[li].line).whole_expr(), "the initial state")
+
+    def is_matches(ts, i):
+        return (ts[i].kind == "ident" and ts[i].text == "matches" and i + 2 < len(ts) and ts[i + 1].is_p("!")
+                and is_group(ts[i + 2]) and ts[i + 2].sub and ts[i + 2].sub[0].kind == "ident" and ts[i + 2].sub[0].text == "state")
+    ms = find_tokens(fn.body_group.sub, is_matches, [])
+    if len(ms) != 1:
+        raise SiteError(f"expected one `matches!(state, ..)` in `NumberBuf::parse_in`, found {len(ms)}", fn.line)
+    mt, mi = ms[0]
+    parts, _ = split_top(mt[mi + 2].sub)
+    if len(parts) != 2:
+        raise SiteError("`matches!(state, ..)` with a guard or further arguments is not translated", mt[mi].line)
+    pat = Parser(parts[1], mt[mi].line).whole_pattern()
+    alts = pat[2] if pat[0] == "por" else [pat]
+    accepting = [_state_of(a, "an accepting state") for a in alts]
+    accepting = [s for s in states if s in accepting] + [s for s in accepting if s not in states]
+
+    table = []
+    for name, kind, vln in pmod.enums["Context"]:
+        fset = set()
+        for c in CHAR_DOMAIN:
+            v, _ = run(pmod, follows, [("variant", "Context", name, []), mk_char(c)], f"Context::{name} and the character {c:#x}")
+            if want(v, "bool", follows, "a context and a character")[1]:
+                fset.add(c)
+        per_state = []
+        for st in states:
+            outs = {}
+            for c, a in zip(CHAR_DOMAIN, rows[st]):
+                if a[0] == "go":
+                    o = a[1]
+                elif a[0] == "follows":
+                    o = "break" if c in fset else "error"
+                else:
+                    o = a[0]
+                outs.setdefault(o, []).append(c)
+            order = [s for s in states if s in outs] + [o for o in ("break",) if o in outs]
+            unknown = [o for o in outs if o not in order and o != "error"]
+            if unknown:
+                raise SiteError(f"state `{st}` goes to `{unknown[0]}`, which has no arm of its own", ln)
+            per_state.append((st, [(o, intervals(outs[o])) for o in order]))
+        table.append((name, per_state))
+    return (initial, accepting, table), ln, "fn NumberBuf::parse_in, `match state { .. }`, the initial and the accepting states"
+
+
+def site_escape_table(mods):
+    """the arms of the `match parser.next_char()?` that follows a backslash in SmallString::parse_in: for every character
+    of char_domain the character the two-character escape denotes (arms whose body is a character or the bound
+    character); `u` and the characters that are no escape are left out"""
+    mod = mods("src/parse/string.rs")
+    fn = parse_in_fn(mod)
+
+    def is_bs_arm(ts, i):
+        # (_, Some('\\')) => match parser.next_char()? { .. }
+        if not (is_group(ts[i], "Paren") and i + 4 < len(ts) and ts[i + 1].is_p("=>") and is_kw(ts[i + 2], "match")):
+            return False
+        txt = "".join(u.text for u in ts[i].sub if u.kind != "group") + "".join(
+            v.text for u in ts[i].sub if u.kind == "group" for v in u.sub)
+        return "'\\\\'" in txt
+    found = find_tokens(fn.body_group.sub, is_bs_arm, [])
+    if len(found) != 1:
+        raise SiteError(f"expected one arm `(_, Some('\\\\')) => match ..` in `SmallString::parse_in`, found {len(found)}", fn.line)
+    ts, i = found[0]
+    j = i + 3
+    while j < len(ts) and not is_group(ts[j], "Brace"):
+        j += 1
+    if j >= len(ts):
+        raise SiteError("the `match` after a backslash has no arms", ts[i].line)
+    ln = ts[i].line
+    # the arms, read leniently: pattern up to `=>`; a body that is a block, or that starts with `break` / `return`, is
+    # not an escape character (the `u` arm, the error arm) and is not parsed
+    arms = []
+    g = ts[j].sub
+    k = 0
+    while k < len(g):
+        q = k
+        while q < len(g) and not g[q].is_p("=>"):
+            q += 1
+        if q >= len(g):
+            raise SiteError("an arm without `=>` after a backslash", g[k].line)
+        pat = Parser(g[k:q], g[k].line).whole_pattern()
+        q += 1
+        if q < len(g) and is_group(g[q], "Brace"):
+            body = None
+            q += 1
+        else:
+            r = q
+            while r < len(g) and not g[r].is_p(","):
+                r += 1
+            body = None if (is_kw(g[q], "break") or is_kw(g[q], "return")) else Parser(g[q:r], g[q].line).whole_expr()
+            q = r
+        if q < len(g) and g[q].is_p(","):
+            q += 1
+        arms.append((pat, body))
+        k = q
+    it = Interp(mod)
+    out = []
+    for c in CHAR_DOMAIN:
+        val = ("tuple", [("int", 0, "usize"), ("variant", None, "Some", [("char", c)])])
+        for p, body in arms:
+            b = {}
+            if not it.pm(p, val, b, [{}], None):
+                continue
+            e = body
+            if e is None:
+                pass        # `u` (needs four more characters) or an error
+            elif e[0] == "lit" and e[2][0] == "char":
+                out.append((c, e[2][1]))
+            elif e[0] == "path" and len(e[2]) == 1 and e[2][0] in b and b[e[2][0]][0] == "char":
+                out.append((c, b[e[2][0]][1]))
+            else:
+                raise SiteError("an escape arm yields something this translator does not classify (a character literal, "
+                                "the bound character, a block, or an error)", e[1])
+            break
+    return out, ln, "fn SmallString::parse_in, the two-character escapes"
+
 def cval_of(v, line):
     k = v[0]
     if k == "int":
@@ -2281,6 +2512,19 @@ def _sites():
         ty="list (string * list (N * N))", coq=lambda v: c_list([f"({cstr(n)}, {c_set(iv)})" for n, iv in v], ";\n   "),
         items=lambda v: [f"Context::{n} -> " + ", ".join(s_set(iv)) for n, iv in v], thm="C01_follows_from_source",
         model="for each context, set_of (Parser.follows ctx) char_domain")
+    add(id="number_automaton", file="src/parse/number.rs", props=["C01", "C02", "C07"], ev=site_number_automaton,
+        ty="string * list string * list (string * list (string * list (string * list (N * N))))",
+        coq=lambda v: "(" + cstr(v[0]) + ",\n   " + c_list([cstr(a) for a in v[1]]) + ",\n   " + c_list(
+            ["(" + cstr(ctx) + ",\n     " + c_list(["(" + cstr(st) + ", " + c_list([f"({cstr(o)}, {c_set(iv)})" for o, iv in outs]) + ")"
+                                                    for st, outs in rows], ";\n      ") + ")" for ctx, rows in v[2]], ";\n    ") + ")",
+        items=lambda v: [f"initial = {v[0]}", "accepting = " + ", ".join(v[1])] + [
+            f"Context::{ctx} {st} {o} -> " + ", ".join(s_set(iv)) for ctx, rows in v[2] for st, outs in rows for o, iv in outs],
+        thm="C01_number_automaton_from_source",
+        model="for each context and state, the characters of char_domain by outcome of Parser.num_trans; NInit; Parser.num_final")
+    add(id="escape_table", file="src/parse/string.rs", props=["C02", "C01", "C12"], ev=site_escape_table,
+        ty="list (N * N)", coq=lambda v: c_list([f"({a}, {b})" for a, b in v]),
+        items=lambda v: [f"\\{s_text([a])} -> {u(b)}" for a, b in v], thm="C02_escapes_from_source",
+        model="the character the parser model returns for \"\\X\" for X in char_domain")
     add(id="is_control", file="src/parse/string.rs", props=parse_props, ev=site_is_control,
         ty="list (N * N)", coq=c_set, items=s_set, thm="C01_control_from_source",
         model="set_of Parser.is_control char_domain")
